@@ -9,7 +9,10 @@ MODULE = "Nice.Props.C05"
 THEOREMS = [f"Nice.Props.C05.{t}" for t in (
     "C05_no_fault_validate_buffer_length", "C05_no_fault_validate_buffer_length_fast", "C05_no_fault_find",
     "C05_accessor_inside", "C05_no_fault_accessors", "C05_no_fault_xor_accessors", "C05_no_fault_find_unknowns",
-    "C05_no_fault_append", "C05_no_fault_agent_validate")]
+    "C05_no_fault_append", "C05_no_fault_agent_validate", "C05_no_fault_finish_message",
+    "C05_no_fault_usage_builders", "C05_no_fault_create_reply")]
+# not proved in Lean (tie + sanitizers only): no-fault of the TURN usage builders / processors
+# (stun_usage_turn_*) and of stun_usage_ice_conncheck_process / stun_usage_bind_process
 TRUSTED = [
     "Lean 4 kernel; axioms allowed: propext, Classical.choice, Quot.sound (audited by #print axioms on every run)",
     "hand-written faulting model Nice/Model/Stun/*.lean (every read/write of caller memory bounds checked, asserts as faults), "
